@@ -50,6 +50,9 @@ class Context:
         self.counts = {}
         self.clause = ''
         self.t0 = time.time()
+        if getattr(self.prog, 'renamed', None):
+            self.notes.append('private functions recognised as renamed (same scope, same body) and analysed under their baseline '
+                              'names: ' + ', '.join(f'{v} <- {c}' for v, c in sorted(self.prog.renamed.items())))
 
     # ------------------------------------------------------------------ engine access
     def interp(self, types=None, no_inline=(), max_depth=None, expand=True, opaque_attrs=(), sticky_attrs=()):
